@@ -203,6 +203,7 @@ def mfun(name, o, arg_sorts, ntrail, out_sort=None):
     key = (name, o, tuple(str(s) for s in arg_sorts), ntrail)
     if key not in _MFUNS:
         _MFUNS[key] = z3.Function('%s.out%d' % (name, o), *arg_sorts, *([z3.IntSort()] * ntrail), out_sort or z3.RealSort())
+        O.CONGRUENT_DECLS.add('%s.out%d' % (name, o))
     return _MFUNS[key]
 
 
@@ -356,17 +357,24 @@ def _signature(fr, f):
     return Opaque('signature', 'signature', {'parameters': {n: None for n in names}})
 
 
-def shuffle_fn_result(f, X, n):
+def shuffle_fn_result(f, X, n, start=None, end=None, seed=None):
     """assumed contract of a user-supplied shuffle function: some tensor of shape (batch, n,
-    alphabet, length) that is a function of its arguments.  Recording mode (small scope / concrete):
-    shuffle j of example b = X[b] rolled right by j+1 positions, as vf.models.RecordingShuffle."""
+    alphabet, length) that is a function of its arguments (X, start, end, n, random_state).
+    Recording mode (small scope / concrete): shuffle j of example b = X[b] rolled right by j+1
+    positions, as vf.models.RecordingShuffle."""
     if f.attrs.get('recording'):
         Lc = O.conc_int(X.shape[2])
         snap = X.snapshot()
         return Tn.fresh([X.shape[0], n, X.shape[1], X.shape[2]],
                         lambda b, j, c, p: snap(b, c, O.mod(p - (j + 1), Lc)) if Lc > 0 else 0, 'int', origin='fresh:shuffle_fn')
-    g = z3.Function(f.name + '.val', *([z3.IntSort()] * 4), z3.IntSort())
-    return Tn.fresh([X.shape[0], n, X.shape[1], X.shape[2]], lambda b, j, c, p: g(*[O.to_z3(x) for x in (b, j, c, p)]),
+    idx = [z3.Int('sf%d' % i) for i in range(3)]
+    body = O.to_z3(X.elem(*idx))
+    inb = And(*[And(0 <= i, i < d) for i, d in zip(idx, X.shape)])
+    arr = z3.Lambda(idx, z3.If(O.to_z3(inb), body, z3.IntVal(0)))
+    scal = [O.to_z3(d) for d in X.shape] + [O.to_z3(x) if x is not None else z3.IntVal(-7777) for x in (start, end, n, seed)]
+    g = z3.Function(f.name + '.val', arr.sort(), *([z3.IntSort()] * (len(scal) + 4)), z3.IntSort())
+    O.CONGRUENT_DECLS.add(f.name + '.val')
+    return Tn.fresh([X.shape[0], n, X.shape[1], X.shape[2]], lambda b, j, c, p: g(arr, *scal, *[O.to_z3(x) for x in (b, j, c, p)]),
                     'int', origin='fresh:shuffle_fn')
 
 
@@ -375,7 +383,7 @@ def _call_shuffle_fn(fr, f, X, start=None, end=None, n=None, random_state=None, 
     if not isinstance(X, Tn) or X.rank != 3:
         raise Unsupported("shuffle_fn on a non rank-3 tensor")
     fr.ctx.events.append(('shuffle_fn_call',))
-    return shuffle_fn_result(f, X, n)
+    return shuffle_fn_result(f, X, n, start, end, random_state)
 
 
 # ---------------------------------------------------------------------------------------------
